@@ -57,10 +57,102 @@ def consts_in(e, out=None):
     return out
 
 
+def _conversion_steps_rule(ctx, wdt):
+    """convert_wdt applies one structural step per format boundary crossed.  The steps are independent: whether a step runs depends
+    only on its own boundary test, for every ordered pair of versions (a conversion can cross several boundaries).  Decided by
+    evaluating each step's full path condition and its innermost guard over all version pairs."""
+    R = ctx.rule("C18.conversion-steps-are-independent", "for all ordered version pairs, each convert_* step in convert_wdt runs exactly when its own boundary test holds (its path condition equals its innermost guard)", floor=4)
+    from .c07 import enclosing_if_conditions
+    from .c10 import _bval, _NoEval
+    f = next((x for x in wdt.fn_list if x.hir and x.kind != "Closure" and norm(x.path).endswith("conversion::convert_wdt")), None)
+    ver = next((a for a in wdt.items["adts"] if a["path"].endswith("::WowVersion")), None)
+    if f is None or ver is None:
+        ctx.bad(R, "convert_wdt|missing", "-", "convert_wdt or WowVersion not found", "anchor gone")
+        return
+    ctx.saw_fn(f)
+    names = [v["name"] for v in ver.get("variants", [])]
+    ordn = {n: i for i, n in enumerate(names)}
+    body = f.hir["body"]
+    steps = [c_ for c_ in hirq.calls(body) if re.search(r"conversion::convert_\w+$", c_.get("fn") or "") and not (c_.get("fn") or "").endswith("convert_wdt")]
+    if len(steps) < 2:
+        ctx.bad(R, "convert_wdt|steps", f.where, "fewer than two convert_* steps found", "shape changed")
+        return
+    pn = [b for p_ in f.hir["params"] for b in hirq.pat_binds(p_)]
+    fv = next((p_ for p_ in pn if "from" in p_), None)
+    tv = next((p_ for p_ in pn if p_.startswith("to")), None)
+    for st in steps:
+        conds = [(w, cd) for w, cd in enclosing_if_conditions(body, st) if w in ("then", "else")]
+        nm = (st.get("fn") or "").split("::")[-1]
+        if not conds or conds[-1][0] != "then":
+            ctx.bad(R, "convert_wdt|%s|unguarded" % nm, "%s:%d" % (f.file, st.get("ln") or 0), "step %s is not under a boundary test of its own" % nm, "the step runs for conversions that do not cross its boundary")
+            continue
+        try:
+            diff = None
+            for a in names:
+                for b in names:
+                    if a == b:
+                        continue
+                    env = {fv: ordn[a], tv: ordn[b], "__leaf__": (lambda r_: ordn.get(r_))}
+                    own = _bval(conds[-1][1], env, {})
+                    full = all((_bval(cd, env, {}) if w == "then" else not _bval(cd, env, {})) for w, cd in conds)
+                    if own != full and diff is None:
+                        diff = (a, b, own, full)
+            if diff:
+                ctx.bad(R, "convert_wdt|%s|dependent" % nm, "%s:%d" % (f.file, st.get("ln") or 0), "converting %s -> %s crosses the boundary of %s (its own test is %s) but the step %s" % (diff[0], diff[1], nm, diff[2], "runs" if diff[3] else "is skipped because an earlier branch was taken"),
+                        "a conversion across two boundaries applies only one structural change: the file claims the target version but carries (or lacks) the other boundary's chunks and flags")
+            else:
+                ctx.ok(R, {"step": nm, "guard": hirq.render(conds[-1][1])[:70], "pairs": len(names) * (len(names) - 1)})
+        except _NoEval as e:
+            ctx.bad(R, "convert_wdt|%s|not-evaluable" % nm, "%s:%d" % (f.file, st.get("ln") or 0), "guard not evaluable: %s" % e, "shape changed")
+
+
+def _wdl_capability_rule(ctx, wdl):
+    """WdlVersion's capability tables, decided variant by variant: model names/placements live in the WMO chunk family
+    (has_wmo_chunks) or in the ML chunk family that replaced it (has_ml_chunks).  From the first version that has either, every
+    later version has exactly one of them — a version with neither writes files that silently drop the model tables — and each
+    single table is one contiguous run of versions (a feature is added once and removed at most once)."""
+    R = ctx.rule("C18.wdl-capability-tables-have-no-gap", "over all WdlVersion variants: has_wmo_chunks, has_ml_chunks and has_maho_chunk are each one contiguous run; from the first version with model tables on, exactly one of has_wmo_chunks / has_ml_chunks holds", floor=3)
+    from .. import enumpred
+    ver = next((a for a in wdl.items["adts"] if a["path"].endswith("::WdlVersion")), None)
+    if ver is None:
+        ctx.bad(R, "WdlVersion|missing", "-", "enum not found", "anchor gone")
+        return
+    names = [v["name"] for v in ver["variants"]]
+    tabs = {}
+    for fn in ("has_wmo_chunks", "has_ml_chunks", "has_maho_chunk"):
+        f = next((x for x in wdl.fn_list if x.hir and norm(x.path).endswith("WdlVersion::" + fn)), None)
+        if f is None:
+            ctx.bad(R, "%s|missing" % fn, "-", "capability function not found", "anchor gone")
+            return
+        ctx.saw_fn(f)
+        try:
+            tabs[fn] = [bool(enumpred.holds(f.hir["body"], "self", names, v)) for v in names]
+        except Exception as e:
+            ctx.bad(R, "%s|not-evaluable" % fn, f.where, "not decidable over the variants: %s" % e, "shape changed")
+            return
+        runs = sum(1 for i, b in enumerate(tabs[fn]) if b and (i == 0 or not tabs[fn][i - 1]))
+        if runs > 1:
+            gap = next(names[i] for i in range(1, len(names) - 1) if not tabs[fn][i] and any(tabs[fn][:i]) and any(tabs[fn][i + 1:]))
+            ctx.bad(R, "%s|gap|%s" % (fn, gap), f.where, "%s is false for %s but true for versions before and after it" % (fn, gap), "files of that version are written without chunks the neighbouring versions carry: the data does not survive write -> parse")
+        else:
+            ctx.ok(R, {"table": fn, "true_for": [n for n, b in zip(names, tabs[fn]) if b]})
+    both = [(n, a, b) for n, a, b in zip(names, tabs["has_wmo_chunks"], tabs["has_ml_chunks"])]
+    first = next((i for i, (_n, a, b) in enumerate(both) if a or b), None)
+    if first is not None:
+        wrong = [n for n, a, b in both[first:] if a == b]
+        if wrong:
+            ctx.bad(R, "model-tables|%s" % wrong[0], "-", "version %s has %s of the two model-table chunk families" % (wrong[0], "both" if tabs["has_wmo_chunks"][names.index(wrong[0])] else "neither"),
+                    "model names and placements are dropped (or written twice) for that version: write -> parse loses them and conversions to that version copy nothing")
+        else:
+            ctx.ok(R, {"model_tables_from": names[first], "exactly_one_family_per_version": True})
+
+
 def run(ctx):
     prog = ctx.prog
     wdt = prog.crate("wow_wdt")
     wdl = prog.crate("wow_wdl")
+    _conversion_steps_rule(ctx, wdt)
+    _wdl_capability_rule(ctx, wdl)
     R_pair = ctx.rule("C18.read-write-wire-agreement", "each WDT chunk / WDL record is written with the widths, order and named fields it is read with", floor=10)
     R_size = ctx.rule("C18.size-equals-bytes-written", "for fixed-size chunks size() equals the number of bytes write() emits", floor=2)
     R_ver = ctx.rule("C18.same-optional-chunk-rule", "reader and writer decide the optional MWMO chunk through the same version rule", floor=2)
